@@ -32,6 +32,9 @@ class TSock:
         self.log = []
         self.closed_at = None
         self.use_after_close = 0
+        self.events = []  # ordered ("recv-call", thread, 0) / ("r", thread, nbytes) / ("w", thread, bytes): who touched the transport in which order
+        self.send_faults = {}  # number of the send() call (1 = first) -> exception instance raised instead of writing (a transient kernel error)
+        self.n_send_calls = 0
         self.was_reset = False  # the peer's RST has been seen: the kernel socket is in state CLOSE (shutdown() -> ENOTCONN, send() -> EPIPE)
         self.send_delay = 0.0  # seconds of virtual time every send() call blocks before bytes are taken (slow peer)
         self.send_accept = None  # None: everything | "one": one byte per call | "half": half of what is offered (at least 1)
@@ -132,6 +135,7 @@ class TSock:
         s = S.cur()
         s.point("recv")
         self._touch("recv")
+        self.events.append(("recv-call", getattr(s.current, "name", "?"), 0))
         if not isinstance(n, int) or n <= 0:
             raise ValueError("negative buffersize in recv")
         while True:
@@ -150,6 +154,7 @@ class TSock:
                         continue
                     out = self._take(n)
                     self.log.append((s.now, "r", len(out)))
+                    self.events.append(("r", getattr(s.current, "name", "?"), len(out)))
                     return out
                 if h[1] == "eof":
                     self.log.append((s.now, "r", 0))
@@ -177,6 +182,10 @@ class TSock:
         data = bytes(data)
         if self.shut:
             raise BrokenPipeError(_errno.EPIPE, "Broken pipe")
+        self.n_send_calls += 1
+        if self.n_send_calls in self.send_faults:
+            self.log.append((s.now, "send-fault", repr(self.send_faults[self.n_send_calls])))
+            raise self.send_faults[self.n_send_calls]
         if self.send_delay:
             # a slow peer: the call blocks (virtual time passes, other threads run) before the kernel takes the bytes
             s.block(lambda: False, s.now + self.send_delay, "send-buffer")
@@ -186,6 +195,7 @@ class TSock:
         elif self.send_accept == "half":
             data = data[:max(1, len(data) // 2)]
         self.written.append((s.now, data))
+        self.events.append(("w", getattr(s.current, "name", "?"), data))
         self.log.append((s.now, "w", len(data)))
         if self.peer is not None:
             self.peer.on_client_bytes(self, data)
